@@ -591,6 +591,8 @@ def emit(data):
     used = set()
     for t in data["tables"]:
         base = lean_ident((t["owner"] or t["module"]) + ("" if t["attr"].startswith("_") else "_") + t["attr"])
+        if t["module"].endswith("spc5"):
+            base += "_spc5"
         n = base
         i = 2
         while n in used:
